@@ -245,6 +245,8 @@ func parseDirectives(doc string, hs *HarnessSpec) {
 				hs.Cfg.MaxConcrete, _ = strconv.Atoi(p[1])
 			case "maxruns":
 				hs.MaxRuns, _ = strconv.Atoi(p[1])
+			case "cut":
+				hs.Cfg.Cut, _ = strconv.Atoi(p[1])
 			case "prunefrom":
 				hs.Cfg.PruneFrom, _ = strconv.Atoi(p[1])
 			case "wall":
@@ -557,6 +559,9 @@ func runHarness(ld *Loaded, hs *HarnessSpec, tier string, known map[string]bool,
 				ob.timeoutMs = hs.Cfg.ObligMs
 				if ob.Kind == "reach" {
 					ob.timeoutMs = 10000
+				}
+				if ob.Hunt && ob.timeoutMs > 30000 {
+					ob.timeoutMs = 30000
 				}
 				ob.done = make(chan struct{}, 1)
 				hr.Obligations = append(hr.Obligations, ob)
